@@ -42,6 +42,7 @@ type entryPoint struct {
 	call   func(b []byte)
 	model  func(c *Ctx, b []byte, panicked bool) // optional: emit a model case
 	iso    func(b []byte) isoResult              // optional: run the call in a worker process instead (external decoders that can die of a fatal out-of-memory error)
+	hangs  int                                   // probes of this entry point that did not return: after two, the rest are skipped (each leaves a spinning goroutine behind)
 }
 
 // ---- process isolation for entry points that reach the external NDR decoder (jcmturner/rpc/v2): it allocates by
@@ -258,6 +259,10 @@ func probe(c *Ctx, ep *entryPoint, b []byte, kind string) {
 		c.Check(r.alloc <= limit, "allocation in proportion to the input", "alloc:"+ep.name, fmt.Sprintf("%d bytes allocated for %d input bytes", r.alloc, len(b)), inp)
 		return
 	}
+	if ep.hangs >= 2 {
+		c.Count("skipped-after-hang:" + ep.name)
+		return
+	}
 	var ms0, ms1 runtime.MemStats
 	runtime.ReadMemStats(&ms0)
 	done := make(chan struct{})
@@ -274,6 +279,7 @@ func probe(c *Ctx, ep *entryPoint, b []byte, kind string) {
 	case <-done:
 	case <-time.After(5 * time.Second):
 		hung = true
+		ep.hangs++
 	}
 	el := time.Since(t0)
 	runtime.ReadMemStats(&ms1)
@@ -620,6 +626,39 @@ func c04(c *Ctx) {
 		{name: "crypto.DecryptMessage(rc4)", corpus: [][]byte{ct23.Cipher}, call: func(b []byte) { crypto.DecryptMessage(b, svc.keys[23], 2) }, model: decModel(23)},
 		{name: "crypto.DecryptMessage(des3)", corpus: [][]byte{ct16.Cipher}, call: func(b []byte) { crypto.DecryptMessage(b, svc.keys[16], 2) }, model: decModel(16)},
 		{name: "crypto.DecryptMessage(aes256-sha384)", corpus: [][]byte{ct20.Cipher}, call: func(b []byte) { crypto.DecryptMessage(b, svc.keys[20], 2) }, model: decModel(20)},
+		// the KEY is part of the hostile input too (a keytab file, a session key out of a decrypted ticket, a subkey):
+		// byte 0 selects the etype, byte 1 the key length, then the key, then the data
+		{name: "crypto.DecryptMessage(key from input)", corpus: keyedCorpus(svc, map[int32][]byte{16: ct16.Cipher, 17: nil, 18: ct18.Cipher, 19: nil, 20: ct20.Cipher, 23: ct23.Cipher}), call: func(b []byte) {
+			et, key, data := splitKeyed(b)
+			crypto.DecryptMessage(data, types.EncryptionKey{KeyType: et, KeyValue: key}, 2)
+		}},
+		{name: "crypto checksum (key from input)", corpus: keyedCorpus(svc, map[int32][]byte{16: []byte("data"), 17: []byte("data"), 18: []byte("data"), 19: []byte("data"), 20: []byte("data"), 23: []byte("data")}), call: func(b []byte) {
+			et, key, data := splitKeyed(b)
+			if e, err := crypto.GetEtype(et); err == nil {
+				if h, err := e.GetChecksumHash(key, data, 7); err == nil {
+					e.VerifyChecksum(key, data, h, 7)
+				}
+				e.VerifyChecksum(key, data, data, 7)
+				e.DeriveKey(key, []byte{0, 0, 0, 2, 0x99})
+				e.EncryptMessage(key, data, 3)
+			}
+		}},
+		{name: "gssapi.WrapToken.Verify(key from input)", corpus: keyedCorpus(svc, map[int32][]byte{16: wtB, 17: wtB, 18: wtB, 23: wtB}), call: func(b []byte) {
+			et, key, data := splitKeyed(b)
+			var x gssapi.WrapToken
+			if x.Unmarshal(data, false) == nil {
+				x.Verify(types.EncryptionKey{KeyType: et, KeyValue: key}, 24)
+			}
+		}},
+		{name: "keytab.Unmarshal+Ticket.DecryptEncPart", corpus: [][]byte{ktB}, call: func(b []byte) {
+			kt := keytab.New()
+			if kt.Unmarshal(b) == nil {
+				var x messages.Ticket
+				if x.Unmarshal(tktB) == nil {
+					x.DecryptEncPart(kt, nil)
+				}
+			}
+		}},
 	}
 	for _, ep := range eps {
 		if strings.Contains(ep.name, "GetKeyFromPassword") || strings.Contains(ep.name, "ASRep") {
@@ -960,3 +999,36 @@ func mintWithAuthData(c *Ctx, r recipe, ad types.AuthorizationData) minted {
 var forcedAuthData types.AuthorizationData
 
 func init() { props["C04"] = c04 }
+
+// keyedCorpus: [etype index, key length, key..., data...] for every etype given, with the service's own key of that type
+// and, as further seeds, the same with a key one byte short, one byte long, 5 bytes, and empty.
+var keyedEtypes = []int32{16, 17, 18, 19, 20, 23}
+
+func keyedCorpus(svc *testService, data map[int32][]byte) [][]byte {
+	var out [][]byte
+	for i, et := range keyedEtypes {
+		d, ok := data[et]
+		if !ok {
+			continue
+		}
+		k := svc.keys[et].KeyValue
+		keys := [][]byte{k, k[:len(k)-1], append(append([]byte{}, k...), 0x5a), k[:5], {}}
+		for _, kk := range keys {
+			b := append([]byte{byte(i), byte(len(kk))}, kk...)
+			out = append(out, append(b, d...))
+		}
+	}
+	return out
+}
+
+func splitKeyed(b []byte) (int32, []byte, []byte) {
+	if len(b) < 2 {
+		return 18, nil, nil
+	}
+	et := keyedEtypes[int(b[0])%len(keyedEtypes)]
+	n := int(b[1]) % 64
+	if n > len(b)-2 {
+		n = len(b) - 2
+	}
+	return et, b[2 : 2+n], b[2+n:]
+}
